@@ -172,7 +172,14 @@ func GenFlowCase(g *mon.RNG, proto string, o GenOpts) *FlowCase {
 				maxPad = 3
 			}
 			s := GenDataSet(g, t, k, o, maxPad)
-			if proto == "nf9" {
+			if proto == "nf9" && g.Chance(1, 5) {
+				// RFC 3954 only says the exporter SHOULD pad a flowset to a 32-bit boundary: this one does not.
+				// Whatever follows starts right after its declared length.
+				s.Pad = 0
+				if SetLen(&s)%4 != 0 {
+					desc += "|UNALIGNED"
+				}
+			} else if proto == "nf9" {
 				// v9: pad to a 4-octet boundary iff that padding is shorter than the minimum record;
 				// otherwise add records until no padding is needed (give up by dropping the set)
 				ok := false
